@@ -512,4 +512,21 @@ example : let c := crun (Cluster.init false 1 : Cluster Nat) cevs
     (c.pools 0).conns = [0] ∧ ((c.pools 0).net 0).serverKs = some 5 ∧
     (c.pools 1).conns = [0] ∧ ((c.pools 1).net 0).serverKs = some 5 := by decide
 
+/-- The cluster-level ghost is not sticky either: two overlapping `Session::use_keyspace` calls (flag set, the
+theorem silent), then, once both are answered, a third one: flag clear again, and the theorem applies. -/
+private def cevsRecover : List (CEv Nat) :=
+  [.addNode false 1, .pool 0 .refill, .pool 0 (.opened 0 none none), .useKs 1, .useKs 2, .deliver 1 0, .deliver 0 0,
+   .pool 0 (.taskSubmit 0 0), .pool 0 (.taskSubmit 1 0), .pool 0 (.serve 0 .ack), .pool 0 (.serve 0 .ack),
+   .pool 0 (.taskFinish 0), .pool 0 (.taskFinish 1), .fanoutFinish 0, .fanoutFinish 1]
+example : let c := crun (Cluster.init false 1 : Cluster Nat) cevsRecover
+    c.overlap = true ∧ (c.pools 0).overlap = true ∧ c.fanouts.map (·.resp) = [some .ok, some .ok] ∧
+    c.usedKs = some 2 ∧ ((c.pools 0).net 0).serverKs = some 1 := by decide
+private def cevsRecover2 : List (CEv Nat) :=
+  cevsRecover ++ [.useKs 3, .deliver 2 0, .pool 0 (.taskSubmit 2 0), .pool 0 (.serve 0 .ack), .pool 0 (.taskFinish 2),
+    .fanoutFinish 2]
+example : let c := crun (Cluster.init false 1 : Cluster Nat) cevsRecover2
+    c.overlap = false ∧ (c.pools 0).overlap = false ∧ (c.fanouts.head?.map (·.resp)) = some (some .ok) ∧
+    c.known = [0] ∧ (c.pools 0).conns = [0] ∧ ((c.pools 0).net 0).userMark = false ∧
+    ((c.pools 0).net 0).serverKs = some 3 ∧ ((c.pools 0).net 0).queue = [] := by decide
+
 end ScyllaVerif.Props.C20
